@@ -171,6 +171,12 @@ theorem cli_no_panic (file : Bytes) : cliDeltaFront file ≠ .panic ∧ cliPatch
       · next hv => simp [withBlockSize, hv]
       · decide
 
+/-- C20 (unknown type): the codes `MessageType::from_u8` accepts (its match arms, regenerated from
+protocol.rs on every run; any other shape of that function is an extraction error) are exactly the
+enum's discriminants, which is the set `validType` tests — so a type byte is accepted iff it is one
+of them, and every other byte value is an error. -/
+theorem from_u8_accepts_exactly_the_enum : Copia.Gen.fromU8Arms = Copia.Gen.msgTypeCodes := by decide
+
 /-! Non-vacuity: concrete well-formed values of the composite kinds. -/
 def sampleDelta : DeltaW :=
   { blockSize := 2048, sourceSize := 5, basisSize := 9, ops := [OpW.copy 0 4, OpW.literal [1]],
